@@ -67,7 +67,8 @@ class Gen:
         if r.random() < 0.15:
             s = ['Limit', r.choice([0, 1, 2, 3, 5]), s]
         n = r.choice([0, 1, 2, 3, 4, 5, 6, 7, 9])
-        items = [r.choice([0, 1, 2, 3, 4, 5, 6, 7, 8, 9, 10, -1, -2]) for _ in range(n)]
+        pool = r.choice([[0, 1, 2, 3, 4, 5, 6, 7, 8, 9, 10, -1, -2]] * 3 + [[-3, -2, -1, 0, 0, 1], [-4, -2, 0, 0, -6]])   # falsy running aggregates
+        items = [r.choice(pool) for _ in range(n)]
         return {'items': items, 'spec': s}
 
 
